@@ -327,8 +327,9 @@ def c02f(prog, R):
     for i, s in enumerate(dk):
         g = sm.guards(s)
         ok = sm.BELOW_WATERMARK in g and sm.SAME_KEY in g
-        r.check(ok, "%s|drain_key #%d guarded by same key & peeked.seqno < gc_seqno_threshold" % (sm.path, i + 1),
-                "older versions are drained without the watermark test: a snapshot between the two versions loses its value", "",
+        r.check(ok, "%s|drain_key #%d guarded by same key & head.seqno <= gc_seqno_threshold" % (sm.path, i + 1),
+                "older versions are drained although the entry shadowing them is not visible to every snapshot above the watermark "
+                "(the guard must be `head.seqno <= watermark`): a snapshot between the two versions loses its value", "",
                 " & ".join(g)[-200:])
     # zero_seqnos(false) in merge_tables, watermark plumbing
     mt = prog.need(A.MERGE_TABLES)
